@@ -140,7 +140,7 @@ ENGINES = [
 # additions made while the checks were strengthened against seeded changes (DESIGN.md §8.5)
 EXTRA = {
  "C01": "Also: Remove/re-Add tail steps, intermediate Builds of the same collection, cross-scope concurrent first resolutions. An argument slot bound to a registered singleton that receives no instance (fault-free histories) is a finding. Form catalogue: every special constructor form as a minimal valid singleton set; multi-output singletons whose first invocation returns nil outputs; a worker goroutine started by a singleton constructor that asks for a singleton Build is constructing; a resolved value that is none of the constructor's outputs is an identity finding. Waves 15/16: members of one group registered around Remove steps (collection back to the same size); variadic shared-code constructors; sibling providers (the provider of an intermediate Build kept alive and re-used, judged against itself) and a service swapped for one of another lifetime between two Builds.",
- "C02": "Also: failing first constructions inside the window, cross-scope rounds, and initializers registered under a name (resolved by key and as a dependency, sequentially and from 2-8 goroutines) - still one run per scope. Multi-output constructors whose retry returns one object for two outputs; multi-output constructors with a grouped first output in the window workload. Form catalogue (scoped); resolvers queued behind a parked construction of a scoped service with and without a Close method when the scope is closed (event-steered); a scope opened and kept by a singleton constructor during Build (initializers run once there too). Waves 15/16: a goroutine started by a scope initializer resolves from the half-built scope (steered at a yield point); a live provider creates one more scope after its collection lost a named initializer. Wave 17: function-value-kind catalogue (shared-code constructors, variadic ones among them) judged for scoped registrations.",
+ "C02": "Also: failing first constructions inside the window, cross-scope rounds, and initializers registered under a name (resolved by key and as a dependency, sequentially and from 2-8 goroutines) - still one run per scope. Multi-output constructors whose retry returns one object for two outputs; multi-output constructors with a grouped first output in the window workload. Form catalogue (scoped); resolvers queued behind a parked construction of a scoped service with and without a Close method when the scope is closed (event-steered); a scope opened and kept by a singleton constructor during Build (initializers run once there too). Waves 15/16: a goroutine started by a scope initializer resolves from the half-built scope (steered at a yield point); a live provider creates one more scope after its collection lost a named initializer. Wave 17: function-value-kind catalogue (shared-code constructors, variadic ones among them) judged for scoped registrations. Two scopes (siblings, root and child, parent and child) construct one service at once, held between 'first argument resolved' and 'constructor called': each gets its own scope's instances.",
  "C03": "Also: identity-served-twice across groups/keys, concurrent sections across scopes. Form catalogue (transient); a constructor that received transients fails once and is asked again in the same scope (arguments as fresh as the first time); an optional slot while the transient provider fails. Waves 15/16: transient functions without a service result (runs == request sites, none at Build / CreateScope); sibling providers and swapped services (Remove + Add with the same registration count).",
  "C04": "Also: In structs with embedded structs (promoted fields stay untouched), value-equal instances told apart by pointer, collections used, extended and built again (optional dependency / group member registered after the first Build). Add calls refused half-way after a group member / identity / alias of theirs went in; several ready values of one type under aliases, keys and groups; a group of twelve members; variadic constructors; lookups under keys of another Go type with the same underlying string. Waves 15/16: group members around Remove steps for all lifetimes; variadic closures / method values / MakeFunc sharing code; swapped services; sibling providers. Wave 17: two parameter-object types with one name (function-local types) and different tags; Build / BuildWithContext / BuildWithOptions in turn.",
  "C05": "Also: verdict queries between incremental adds and after every rejected add (stale caches). Slot catalogue (core/slots.go): every unusual declaration form (two fields of one Go type, embedded fields, name+group fields, repeated parameters, ...) x every dependency slot, valid and with the cycle closed through that slot; Remove + re-Add by a constructor that depends on a remaining output of the same Add call. Waves 15/16: cycles through named functions without a result (all lifetimes, Build under a watchdog); a live provider after a failed Build and an edit that closes a cycle; a refused Build of one collection followed by a valid collection of the same types. Wave 17: a failed scoped / transient construction asked for again (directly, through consumers, through optional fields) under a watchdog; grow-sort-grow-sort on the graph; build doors.",
